@@ -2,6 +2,7 @@ import CanvasModel.C14
 import CanvasProofs.Lemmas.C14
 import CanvasProofs.Lemmas.C14Box
 import CanvasProofs.Lemmas.C14Far
+import CanvasProofs.Lemmas.C14Pipe
 import CanvasProofs.Lemmas.Wn
 
 /-! # C14 — Rasterization paints exactly the pixels inside (partial)
@@ -371,5 +372,328 @@ theorem gradient_lookup_canvas (hpx : Int) (dpmm : Rat) (c r : Int) :
   constructor
   · rfl
   · ring
+
+/-! ## the canvas → pixel pipeline (over the L1 translations of Matrix.Mul / Matrix.Dot) -/
+
+section Pipeline
+open GenK
+variable {K : Type} [Field K] [LinearOrder K] [IsStrictOrderedRing K] [Env K]
+
+/-- RenderViewTo (`view.Mul(l.m)`), Path.Transform (`Dot`) and ToScanxScanner's pixel map compose to
+ONE affine map: the matrix pixelAff · view · m -/
+theorem pipeline_single_affine (view m : Mat K) (h d : K) (p : Pt K) :
+    pipelinePt Matrix.Mul Matrix.Dot pxK pyK view m h d p
+      = Matrix.Dot (Matrix.Mul (pixelAff d h) (Matrix.Mul view m)) p := by
+  rw [dot_mulK, pixelAff_dot]
+  rfl
+
+/-- … which acts as: layer matrix first, then the render view, then the pixel map (x·dpmm, H_px − y·dpmm) -/
+theorem pipeline_composes (view m : Mat K) (h d : K) (p : Pt K) :
+    pipelinePt Matrix.Mul Matrix.Dot pxK pyK view m h d p
+      = ⟨pxK d (Matrix.Dot view (Matrix.Dot m p)).x, pyK h d (Matrix.Dot view (Matrix.Dot m p)).y⟩ := by
+  simp only [pipelinePt, dot_mulK]
+
+/-- canvas point ↔ pixel position is a bijection when view and layer matrix are invertible and the
+resolution is not zero: the inverse matrix takes the pixel position back -/
+theorem pipeline_bijective (view m : Mat K) (h d : K) (p : Pt K)
+    (hv : Matrix.Det view ≠ 0) (hm : Matrix.Det m ≠ 0) (hd : d ≠ 0) :
+    Matrix.Dot (Matrix.Inv (Matrix.Mul (pixelAff d h) (Matrix.Mul view m)))
+      (pipelinePt Matrix.Mul Matrix.Dot pxK pyK view m h d p) = p := by
+  rw [pipeline_single_affine]
+  apply inv_dotK
+  rw [det_mulK, det_mulK, pixelAff_det]
+  have : d * d ≠ 0 := mul_ne_zero hd hd
+  exact mul_ne_zero (neg_ne_zero.mpr this) (mul_ne_zero hv hm)
+
+theorem pipeline_injective (view m : Mat K) (h d : K) (p q : Pt K)
+    (hv : Matrix.Det view ≠ 0) (hm : Matrix.Det m ≠ 0) (hd : d ≠ 0)
+    (he : pipelinePt Matrix.Mul Matrix.Dot pxK pyK view m h d p = pipelinePt Matrix.Mul Matrix.Dot pxK pyK view m h d q) :
+    p = q := by
+  rw [← pipeline_bijective view m h d p hv hm hd, he, pipeline_bijective view m h d q hv hm hd]
+
+/-- Context.CoordSystemView: where each coordinate system puts a point of a W × H canvas -/
+theorem coordSystem_dot (W H : K) (p : Pt K) :
+    Matrix.Dot (coordSystemView identK Matrix.ReflectXAbout Matrix.ReflectYAbout (W / 2) (H / 2) 0) p = p
+    ∧ Matrix.Dot (coordSystemView identK Matrix.ReflectXAbout Matrix.ReflectYAbout (W / 2) (H / 2) 1) p = ⟨W - p.x, p.y⟩
+    ∧ Matrix.Dot (coordSystemView identK Matrix.ReflectXAbout Matrix.ReflectYAbout (W / 2) (H / 2) 2) p = ⟨W - p.x, H - p.y⟩
+    ∧ Matrix.Dot (coordSystemView identK Matrix.ReflectXAbout Matrix.ReflectYAbout (W / 2) (H / 2) 3) p = ⟨p.x, H - p.y⟩ := by
+  refine ⟨?_, ?_, ?_, ?_⟩ <;>
+  · cases p
+    simp only [coordSystemView, identK, Matrix.ReflectXAbout, Matrix.ReflectYAbout, Matrix.Translate, Matrix.Scale, Matrix.Mul, Matrix.Dot]
+    congr 1 <;> ring
+
+/-- every coordinate system view is an involution of the canvas rectangle -/
+theorem coordSystem_involutive (W H : K) (cs : Nat) (p : Pt K) :
+    Matrix.Dot (coordSystemView identK Matrix.ReflectXAbout Matrix.ReflectYAbout (W / 2) (H / 2) cs)
+      (Matrix.Dot (coordSystemView identK Matrix.ReflectXAbout Matrix.ReflectYAbout (W / 2) (H / 2) cs) p) = p := by
+  obtain ⟨h0, h1, h2, h3⟩ := coordSystem_dot W H p
+  match cs with
+  | 0 => rw [(coordSystem_dot W H p).1, (coordSystem_dot W H p).1]
+  | 1 => rw [(coordSystem_dot W H p).2.1, (coordSystem_dot W H _).2.1]; cases p; simp
+  | 2 => rw [(coordSystem_dot W H p).2.2.1, (coordSystem_dot W H _).2.2.1]; cases p; simp
+  | 3 => rw [(coordSystem_dot W H p).2.2.2, (coordSystem_dot W H _).2.2.2]; cases p; simp
+  | n + 4 =>
+    have : coordSystemView identK Matrix.ReflectXAbout Matrix.ReflectYAbout (W / 2) (H / 2) (n + 4) = (identK : Mat K) := rfl
+    rw [this]; cases p; simp [Matrix.Dot, identK]
+
+end Pipeline
+
+/-! ## image size is monotone, canvas points land inside the image -/
+
+theorem image_size_mono_resolution (w d₁ d₂ : Rat) (hw : 0 ≤ w) (hd : 0 ≤ d₁) (h : d₁ ≤ d₂) :
+    imageDim w d₁ ≤ imageDim w d₂ := by
+  unfold imageDim
+  apply truncQ_mono_nonneg
+  · have : 0 ≤ w * d₁ := mul_nonneg hw hd
+    linarith
+  · have : w * d₁ ≤ w * d₂ := mul_le_mul_of_nonneg_left h hw
+    linarith
+
+theorem image_size_mono_size (w₁ w₂ d : Rat) (hw : 0 ≤ w₁) (hd : 0 ≤ d) (h : w₁ ≤ w₂) :
+    imageDim w₁ d ≤ imageDim w₂ d := by
+  unfold imageDim
+  apply truncQ_mono_nonneg
+  · have : 0 ≤ w₁ * d := mul_nonneg hw hd
+    linarith
+  · have : w₁ * d ≤ w₂ * d := mul_le_mul_of_nonneg_right h hd
+    linarith
+
+/-- the conversion in front of the scanner is monotone for pixel coordinates ≥ 0 -/
+theorem fixedPoint_mono (x y : Rat) (hx : 0 ≤ x) (h : x ≤ y) : fixedPoint x ≤ fixedPoint y := by
+  unfold fixedPoint
+  apply truncQ_mono_nonneg <;> linarith
+
+/-- a canvas abscissa in [0, W] reaches the scanner inside the image, up to the rounding of the image
+size (at most half a pixel) and of the 26.6 grid (1/128) -/
+theorem canvas_x_inside_image (W d x : Rat) (hd : 0 ≤ d) (h0 : 0 ≤ x) (h1 : x ≤ W) :
+    0 ≤ fixedPoint (pixelX d x) ∧ (fixedPoint (pixelX d x) : Rat) / 64 ≤ (imageDim W d : Rat) + 1 / 2 + 1 / 128 := by
+  have hxd : 0 ≤ x * d := mul_nonneg h0 hd
+  have hWd : x * d ≤ W * d := mul_le_mul_of_nonneg_right h1 hd
+  have hs := scan_rounding (x * d) (by linarith)
+  have hi := image_size W d (le_trans hxd hWd)
+  rw [abs_le] at hs hi
+  unfold pixelX
+  constructor
+  · unfold fixedPoint
+    exact truncQ_nonneg_of_nonneg (by linarith)
+  · linarith [hs.1, hs.2, hi.1, hi.2]
+
+/-- and exactly inside [0, W_px] (in 1/64 pixels) when W·dpmm is a whole number of pixels -/
+theorem canvas_x_inside_image_exact (W d x : Rat) (n : Nat) (hn : W * d = n) (hd : 0 ≤ d) (h0 : 0 ≤ x) (h1 : x ≤ W) :
+    0 ≤ fixedPoint (pixelX d x) ∧ fixedPoint (pixelX d x) ≤ 64 * imageDim W d := by
+  have hxd : 0 ≤ x * d := mul_nonneg h0 hd
+  have hWd : x * d ≤ W * d := mul_le_mul_of_nonneg_right h1 hd
+  unfold pixelX
+  refine ⟨by unfold fixedPoint; exact truncQ_nonneg_of_nonneg (by linarith), ?_⟩
+  rw [image_size_exact W d n hn]
+  have hm := fixedPoint_mono (x * d) (W * d) hxd hWd
+  have : fixedPoint (W * d) = 64 * (n : Int) := by
+    unfold fixedPoint
+    rw [hn]
+    have e : (n : Rat) * 64 + 1 / 2 = (((64 * (n : Int)) : Int) : Rat) + 1 / 2 := by push_cast; ring
+    rw [e]
+    exact truncQ_int_add_half _ (by omega)
+  omega
+
+/-- a canvas ordinate in [0, H]: the bottom edge y = 0 is row H_px exactly, the rest lies above it and not
+more than the size rounding above row 0 -/
+theorem canvas_y_inside_image (H d y : Rat) (hd : 0 ≤ d) (h0 : 0 ≤ y) (h1 : y ≤ H) :
+    pixelY (imageDim H d) d y ≤ (imageDim H d : Rat) ∧ -(1 / 2) ≤ pixelY (imageDim H d) d y := by
+  have hyd : 0 ≤ y * d := mul_nonneg h0 hd
+  have hHd : y * d ≤ H * d := mul_le_mul_of_nonneg_right h1 hd
+  have hi := image_size H d (le_trans hyd hHd)
+  rw [abs_le] at hi
+  unfold pixelY
+  constructor <;> linarith [hi.1, hi.2]
+
+/-! ## compositing (srwiley/scanx ImgSpanner.SpanFgColor, one channel) -/
+
+/-- an opaque paint at full coverage replaces the destination exactly -/
+theorem spanBlend_opaque_full (c8 d : Nat) (h : c8 < 256) : spanBlend (c8 * 257) m16 m16 d = c8 := by
+  unfold spanBlend m16 mp16
+  simp only [if_true]
+  omega
+
+/-- zero coverage leaves the destination unchanged … -/
+theorem spanBlend_zero_coverage (c ca d : Nat) (h : d < 256) : spanBlend c ca 0 d = d := by
+  unfold spanBlend m16 mp16
+  simp only [Nat.mul_zero, Nat.zero_div, Nat.sub_zero, Nat.add_zero]
+  have : ¬ (0 = 65535 * 65535) := by decide
+  simp only [this, if_false]
+  omega
+
+/-- … and so does a fully transparent paint at any coverage (identity of source-over) -/
+theorem spanBlend_transparent (ma d : Nat) (h : d < 256) : spanBlend 0 0 ma d = d := by
+  unfold spanBlend m16 mp16
+  simp only [Nat.zero_mul, Nat.zero_div, Nat.sub_zero, Nat.add_zero]
+  have : ¬ (0 = 65535 * 65535) := by decide
+  simp only [this, if_false]
+  omega
+
+/-- the uint32 arithmetic of the blend cannot overflow for premultiplied paints … -/
+theorem spanBlend_no_overflow (c ca ma d : Nat) (hc : c ≤ ca) (hca : ca ≤ 65535) (hma : ma ≤ 65535) (hd : d ≤ 255) :
+    spanBlendNum c ca ma d < 2 ^ 32 := by
+  have := spanBlendNum_lt c ca ma d hc hca hma hd
+  omega
+
+/-- … and its result fits the 8-bit channel (the `uint8(…)` conversion never wraps) -/
+theorem spanBlend_le_255 (c ca ma d : Nat) (hc : c ≤ ca) (hca : ca ≤ 65535) (hma : ma ≤ 65535) (hd : d ≤ 255) :
+    spanBlend c ca ma d ≤ 255 := by
+  unfold spanBlend
+  split
+  · rename_i h
+    have hx : c * ma ≤ ca * ma := Nat.mul_le_mul_right ma hc
+    unfold m16 at h
+    unfold mp16
+    omega
+  · have := spanBlendNum_lt c ca ma d hc hca hma hd
+    unfold spanBlendNum at this
+    unfold mp16
+    omega
+
+/-- replaying fully covering draws: an opaque draw hides everything drawn before it -/
+theorem composite_opaque_last (ds : List Px8) (s : Px8) (hr : s.r < 256) (hg : s.g < 256) (hb : s.b < 256) (ha : s.a = 255) :
+    composite (ds ++ [s]) = s := by
+  unfold composite
+  rw [List.foldl_append]
+  generalize List.foldl (fun d s => blendPx s m16 d) ⟨0, 0, 0, 0⟩ ds = acc
+  simp only [List.foldl_cons, List.foldl_nil, blendPx, ha]
+  have e : (255 * 257 : Nat) = m16 := by decide
+  rw [e, spanBlend_opaque_full s.r _ hr, spanBlend_opaque_full s.g _ hg, spanBlend_opaque_full s.b _ hb]
+  have : spanBlend m16 m16 m16 acc.a = 255 := by
+    have := spanBlend_opaque_full 255 acc.a (by decide)
+    rw [e] at this; exact this
+  rw [this]
+  cases s; simp_all
+
+/-- the ideal operator the integer blend approximates: source-over of premultiplied (colour, alpha)
+pairs is associative, has the transparent pixel as identity on both sides, and an opaque source absorbs -/
+theorem over_assoc (a b c : Rat × Rat) : over a (over b c) = over (over a b) c := by
+  simp only [over]; ext <;> simp <;> ring
+
+theorem over_transparent_left (d : Rat × Rat) : over (0, 0) d = d := by
+  simp [over]
+
+theorem over_transparent_right (s : Rat × Rat) : over s (0, 0) = s := by
+  simp [over]
+
+theorem over_opaque (c : Rat) (d : Rat × Rat) : over (c, 1) d = (c, 1) := by
+  simp [over]
+
+/-! ## colour-space conversions of opaque colours (complete 8-bit tables of colors.go)
+
+Each statement is decided over the COMPLETE table (256 entries, `decide +kernel`), and the tables
+are compared entry by entry with the real `ToLinear`/`FromLinear` on every run (CSP lines). -/
+
+open Canvas.C14.Tables
+
+def allTables : List (Array Nat) := [srgbToLinear, srgbFromLinear, gamma22ToLinear, gamma22FromLinear]
+
+def monoCheck (t : Array Nat) : Bool := t.size == 256 && (List.range 255).all fun i => t[i]! ≤ t[i + 1]!
+def endCheck (t : Array Nat) : Bool := t[0]! == 0 && t[255]! == 255 && (List.range 256).all fun i => t[i]! ≤ 255
+def rtCheck (f g : Array Nat) (lo e : Nat) : Bool :=
+  (List.range 256).all fun c => decide (lo ≤ c → g[f[c]!]! ≤ c + e ∧ c ≤ g[f[c]!]! + e)
+
+/-- both directions of both colour spaces are monotone (non-decreasing) on 0..255 -/
+theorem colourspace_monotone (t : Array Nat) (ht : t ∈ allTables) (i : Nat) (hi : i < 255) : t[i]! ≤ t[i + 1]! := by
+  have h : allTables.all monoCheck = true := by decide +kernel
+  have ht' := List.all_eq_true.mp h t ht
+  simp only [monoCheck, Bool.and_eq_true, List.all_eq_true, List.mem_range, decide_eq_true_eq] at ht'
+  exact ht'.2 i hi
+
+/-- black and white are fixed, and every entry is a channel value -/
+theorem colourspace_endpoints (t : Array Nat) (ht : t ∈ allTables) : t[0]! = 0 ∧ t[255]! = 255 ∧ ∀ i < 256, t[i]! ≤ 255 := by
+  have h : allTables.all endCheck = true := by decide +kernel
+  have ht' := List.all_eq_true.mp h t ht
+  simp only [endCheck, Bool.and_eq_true, List.all_eq_true, List.mem_range, decide_eq_true_eq, beq_iff_eq] at ht'
+  exact ⟨ht'.1.1, ht'.1.2, ht'.2⟩
+
+/-- linear light is never brighter than the encoded value -/
+theorem colourspace_toLinear_le (i : Nat) (hi : i < 256) : srgbToLinear[i]! ≤ i ∧ gamma22ToLinear[i]! ≤ i := by
+  have h : ((List.range 256).all fun i => decide (srgbToLinear[i]! ≤ i ∧ gamma22ToLinear[i]! ≤ i)) = true := by decide +kernel
+  have := List.all_eq_true.mp h i (List.mem_range.mpr hi)
+  simpa using this
+
+/-- round trip colour → linear → colour of an opaque sRGB channel: off by at most 6 (attained in the dark
+range), at most 1 from 64 upwards -/
+theorem srgb_roundtrip (c : Nat) (hc : c < 256) :
+    (srgbFromLinear[srgbToLinear[c]!]! ≤ c + 6 ∧ c ≤ srgbFromLinear[srgbToLinear[c]!]! + 6)
+    ∧ (64 ≤ c → srgbFromLinear[srgbToLinear[c]!]! ≤ c + 1 ∧ c ≤ srgbFromLinear[srgbToLinear[c]!]! + 1) := by
+  have h1 : rtCheck srgbToLinear srgbFromLinear 0 6 = true := by decide +kernel
+  have h2 : rtCheck srgbToLinear srgbFromLinear 64 1 = true := by decide +kernel
+  have a := List.all_eq_true.mp h1 c (List.mem_range.mpr hc)
+  have b := List.all_eq_true.mp h2 c (List.mem_range.mpr hc)
+  simp only [decide_eq_true_eq] at a b
+  exact ⟨a (Nat.zero_le c), b⟩
+
+/-- the same for gamma 2.2: at most 14, at most 1 from 64 upwards -/
+theorem gamma22_roundtrip (c : Nat) (hc : c < 256) :
+    (gamma22FromLinear[gamma22ToLinear[c]!]! ≤ c + 14 ∧ c ≤ gamma22FromLinear[gamma22ToLinear[c]!]! + 14)
+    ∧ (64 ≤ c → gamma22FromLinear[gamma22ToLinear[c]!]! ≤ c + 1 ∧ c ≤ gamma22FromLinear[gamma22ToLinear[c]!]! + 1) := by
+  have h1 : rtCheck gamma22ToLinear gamma22FromLinear 0 14 = true := by decide +kernel
+  have h2 : rtCheck gamma22ToLinear gamma22FromLinear 64 1 = true := by decide +kernel
+  have a := List.all_eq_true.mp h1 c (List.mem_range.mpr hc)
+  have b := List.all_eq_true.mp h2 c (List.mem_range.mpr hc)
+  simp only [decide_eq_true_eq] at a b
+  exact ⟨a (Nat.zero_le c), b⟩
+
+/-- the bounds 6 and 14 are attained (the error set is not smaller) -/
+theorem roundtrip_bounds_attained :
+    (∃ c < 256, c = srgbFromLinear[srgbToLinear[c]!]! + 6 ∨ srgbFromLinear[srgbToLinear[c]!]! = c + 6)
+    ∧ (∃ c < 256, c = gamma22FromLinear[gamma22ToLinear[c]!]! + 14 ∨ gamma22FromLinear[gamma22ToLinear[c]!]! = c + 14) := by
+  have h : ((List.range 256).any fun c => decide (c = srgbFromLinear[srgbToLinear[c]!]! + 6 ∨ srgbFromLinear[srgbToLinear[c]!]! = c + 6)) = true
+      ∧ ((List.range 256).any fun c => decide (c = gamma22FromLinear[gamma22ToLinear[c]!]! + 14 ∨ gamma22FromLinear[gamma22ToLinear[c]!]! = c + 14)) = true := by
+    decide +kernel
+  obtain ⟨h1, h2⟩ := h
+  obtain ⟨c1, m1, p1⟩ := List.any_eq_true.mp h1
+  obtain ⟨c2, m2, p2⟩ := List.any_eq_true.mp h2
+  exact ⟨⟨c1, List.mem_range.mp m1, by simpa using p1⟩, ⟨c2, List.mem_range.mp m2, by simpa using p2⟩⟩
+
+/-- linear → colour → linear loses at most 1 in both spaces -/
+theorem linear_roundtrip (l : Nat) (hl : l < 256) :
+    (srgbToLinear[srgbFromLinear[l]!]! ≤ l + 1 ∧ l ≤ srgbToLinear[srgbFromLinear[l]!]! + 1)
+    ∧ (gamma22ToLinear[gamma22FromLinear[l]!]! ≤ l + 1 ∧ l ≤ gamma22ToLinear[gamma22FromLinear[l]!]! + 1) := by
+  have h1 : rtCheck srgbFromLinear srgbToLinear 0 1 = true := by decide +kernel
+  have h2 : rtCheck gamma22FromLinear gamma22ToLinear 0 1 = true := by decide +kernel
+  have a := List.all_eq_true.mp h1 l (List.mem_range.mpr hl)
+  have b := List.all_eq_true.mp h2 l (List.mem_range.mpr hl)
+  simp only [decide_eq_true_eq] at a b
+  exact ⟨a (Nat.zero_le l), b (Nat.zero_le l)⟩
+
+/-! ## non-vacuity: concrete, non-trivial instances of the hypotheses used above -/
+
+@[instance_reducible] def envQ14 : Env ℚ := ⟨0, 0, 0, id, id, id, fun _ _ => 0, id, fun _ _ => 0, id, id, fun _ _ => 0, fun _ => false⟩
+
+section NonVacuity
+attribute [local instance] envQ14
+open GenK
+
+/-- a rotated, scaled layer through a translating view at 4.5 px/mm: all three hypotheses of `pipeline_bijective` hold -/
+example : Matrix.Det (⟨1, 0, 3, 0, 1, -2⟩ : Mat ℚ) ≠ 0 ∧ Matrix.Det (⟨0, -2, 5, 2, 0, 1⟩ : Mat ℚ) ≠ 0 ∧ ((9 : ℚ) / 2) ≠ 0 := by
+  refine ⟨?_, ?_, ?_⟩ <;> norm_num [Matrix.Det]
+
+/-- and the pipeline really moves points: (1, 1) of that layer lands at pixel position (27, 85.5) on a 90 px high image -/
+example : pipelinePt Matrix.Mul Matrix.Dot pxK pyK (⟨1, 0, 3, 0, 1, -2⟩ : Mat ℚ) ⟨0, -2, 5, 2, 0, 1⟩ 90 (9 / 2) ⟨1, 1⟩ = ⟨27, 171 / 2⟩ := by
+  simp only [pipelinePt, Matrix.Mul, Matrix.Dot, pxK, pyK]; norm_num
+end NonVacuity
+
+/-- `image_size_mono_resolution`, `canvas_x_inside_image`: a 10.3 mm canvas at 2 and 4.5 px/mm, x = 7 -/
+example : (0 : Rat) ≤ 103 / 10 ∧ (0 : Rat) ≤ 2 ∧ (2 : Rat) ≤ 9 / 2 ∧ (0 : Rat) ≤ 7 ∧ (7 : Rat) ≤ 103 / 10 := by norm_num
+example : imageDim (103 / 10) 2 = 21 ∧ imageDim (103 / 10) (9 / 2) = 46 := by decide +kernel
+/-- `canvas_x_inside_image_exact`: 10 mm at 4.5 px/mm is exactly 45 px -/
+example : (10 : Rat) * (9 / 2) = (45 : Nat) := by norm_num
+/-- `fixed_point_neg_attained`, `scan_rounding_neg`: hypotheses satisfiable -/
+example : (0 : Rat) ≤ 1 / 100 ∧ (1 / 100 : Rat) < 1 / 64 ∧ ((-3 / 10 : Rat)) * 64 + 1 / 2 < 0 := by norm_num
+/-- `spanBlend_le_255` / `spanBlend_no_overflow`: a half-transparent premultiplied paint at partial coverage over white -/
+example : (100 * 257 : Nat) ≤ 128 * 257 ∧ 128 * 257 ≤ 65535 ∧ 40000 ≤ 65535 ∧ (255 : Nat) ≤ 255
+    ∧ spanBlend (100 * 257) (128 * 257) 40000 255 = 238 := by decide
+/-- `composite_opaque_last` and a genuinely blended case: half-transparent red over opaque blue -/
+example : composite [⟨0, 0, 255, 255⟩, ⟨128, 0, 0, 128⟩] = ⟨128, 0, 127, 255⟩ := by decide
+/-- `gradients_unchanged`, `setColorSpace_value`: a receiver whose stops sit inside a larger array -/
+example : (⟨0, 1, 2, 3⟩ : Slice).arr < ([[7, 128, 64, 9]] : Mem Nat).length
+    ∧ (⟨0, 1, 2, 3⟩ : Slice).off + (⟨0, 1, 2, 3⟩ : Slice).len ≤ (([[7, 128, 64, 9]] : Mem Nat).getD 0 []).length := by decide
+/-- `later_covers_earlier`: two draws, the second covering the pixel -/
+example : replay [⟨fun p : Nat => p < 5, 1⟩, ⟨fun p : Nat => 3 ≤ p, 2⟩] (fun _ => 0) 4 = 2
+    ∧ replay [⟨fun p : Nat => p < 5, 1⟩, ⟨fun p : Nat => 3 ≤ p, 2⟩] (fun _ => 0) 1 = 1 := by decide
 
 end C14
